@@ -1,0 +1,23 @@
+//go:build verif
+
+// Contracts for govc (contract-based deductive verification, /verif). Comment-only file:
+// it is compiled only under the build tag "verif" and contains no code.
+
+package mod_doh
+
+//@ func setClientSubnet
+//@   props C56
+//@   nopanic
+//@   requires req != nil && dnsMsg != nil
+//@   requires req.ClientAddr != nil ==> len(req.ClientAddr.IP) == 4 || len(req.ClientAddr.IP) == 16
+//@   requires req.ClientAddr == nil && req.RemoteAddr != nil ==> len(req.RemoteAddr.IP) == 4 || len(req.RemoteAddr.IP) == 16
+//@   let n := len(dnsMsg.Extra)
+//@   let opt := unbox(dnsMsg.Extra[n-1], "*dns.OPT")
+//@   let sub := unbox(opt.Option[0], "*dns.EDNS0_SUBNET")
+//@   ensures[no_peer_no_option] old(req.RemoteAddr) == nil ==> n == old(len(dnsMsg.Extra))
+//@   ensures[one_opt_record] old(req.RemoteAddr) != nil ==> n == old(len(dnsMsg.Extra)) + 1 && typeis(dnsMsg.Extra[n-1], "*dns.OPT")
+//@   ensures[one_subnet_option] old(req.RemoteAddr) != nil ==> len(opt.Option) == 1 && typeis(opt.Option[0], "*dns.EDNS0_SUBNET")
+//@   ensures[ipv4_family_1_mask_32] old(req.RemoteAddr) != nil && isIPv4(sub.Address) ==> sub.Family == 1 && sub.SourceNetmask == 32
+//@   ensures[ipv6_family_2_mask_128] old(req.RemoteAddr) != nil && !isIPv4(sub.Address) ==> sub.Family == 2 && sub.SourceNetmask == 128
+//@   ensures[address_is_client] old(req.RemoteAddr) != nil ==> sameslice(sub.Address, old(req.ClientAddr != nil ? req.ClientAddr.IP : req.RemoteAddr.IP))
+//@   ensures[existing_records_kept] forall k int :: 0 <= k && k < old(len(dnsMsg.Extra)) ==> dnsMsg.Extra[k] == old(dnsMsg.Extra[k])
